@@ -274,6 +274,38 @@ impl<F, R> CongressSample<F, R> {
     }
 }
 
+/// Verification accessors (`--cfg metrique_verif` only): the sampler's clock is not injectable,
+/// so a harness ends intervals by hand and reads the per-group state.
+#[cfg(metrique_verif)]
+#[doc(hidden)]
+impl<F, R> CongressSample<F, R> {
+    /// what the sampler does when an interval elapses
+    pub fn __verif_end_interval(&mut self) {
+        self.update_rates()
+    }
+
+    /// (group, average observed per interval, sample rate, consecutive idle intervals)
+    pub fn __verif_group_state(&self) -> Vec<(Vec<(String, String)>, f32, f32, u8)> {
+        self.groups
+            .iter()
+            .map(|(g, s)| {
+                (
+                    g.iter()
+                        .map(|(k, v)| (k.to_string(), v.to_string()))
+                        .collect(),
+                    s.average_observed.current(),
+                    s.sample_rate,
+                    s.consecutive_no_observations,
+                )
+            })
+            .collect()
+    }
+
+    pub fn __verif_target(&self) -> u32 {
+        self.target_observed
+    }
+}
+
 #[derive(Clone, Copy, Default)]
 struct GroupState {
     current_observed: u32,
